@@ -1,6 +1,6 @@
 import re, random
 def curated():
-    src = open('/tmp/c09_le.py').read()
+    src = open('/verif/coq/wip/path/c09_le_tests.py').read()
     m = re.search(r"tests = (\[.*?\])\nfor t in tests", src, re.S)
     t1 = eval(m.group(1))
     src = open('/verif/coq/wip/path/tlit.py').read()
